@@ -10,6 +10,7 @@
 
 #include <cmath>
 #include <fstream>
+#include <map>
 #include <functional>
 #include <unistd.h>
 
@@ -78,6 +79,29 @@ const char *kOtherModel = R"(<?xml version="1.0" encoding="UTF-8"?>
 const char *kImportingModel = R"(<?xml version="1.0" encoding="UTF-8"?>
 <model xmlns="http://www.cellml.org/cellml/2.0#" xmlns:xlink="http://www.w3.org/1999/xlink" name="importing_model">
   <import xlink:href="lib.cellml" id="import_id"><component name="ic" component_ref="oc"/><units name="iu" units_ref="uu"/></import>
+</model>)";
+
+// For the short histories: an ODE x' = 1 plus variables that no equation uses, so that they can leave the model
+// without invalidating it; p (main) and q (side) are connected, with ids on the mapping and the connection.
+const char *kStoryModel = R"(<?xml version="1.0" encoding="UTF-8"?>
+<model xmlns="http://www.cellml.org/cellml/2.0#" name="story_model">
+  <units name="per_s"><unit units="second" exponent="-1"/></units>
+  <component name="main">
+    <variable name="t" units="second"/>
+    <variable name="x" units="dimensionless" initial_value="1"/>
+    <variable name="ext" units="dimensionless" initial_value="3"/>
+    <variable name="spare" units="dimensionless" initial_value="4"/>
+    <variable name="p" units="dimensionless" interface="public" initial_value="5"/>
+    <math xmlns="http://www.w3.org/1998/Math/MathML">
+      <apply><eq/><apply><diff/><bvar><ci>t</ci></bvar><ci>x</ci></apply><cn xmlns:cellml="http://www.cellml.org/cellml/2.0#" cellml:units="per_s">1</cn></apply>
+    </math>
+  </component>
+  <component name="side">
+    <variable name="q" units="dimensionless" interface="public"/>
+    <variable name="e1" units="dimensionless" initial_value="1"/>
+    <variable name="e2" units="dimensionless" initial_value="2"/>
+  </component>
+  <connection component_1="main" component_2="side" id="con_id"><map_variables variable_1="p" variable_2="q" id="map_id"/></connection>
 </model>)";
 
 struct R
@@ -240,12 +264,18 @@ struct Row
     int classes; // applicable argument classes (mask)
     bool analysis; // needs the analysed model
     std::function<R(Fx &, int)> fn;
+    bool mayChange = false; // a short history whose earlier (legal) calls change the state: only the clean return and the result are judged
 };
 
 std::vector<Row> gRows;
 void row(const std::string &key, int classes, std::function<R(Fx &, int)> fn, const std::string &variant = "", bool analysis = false)
 {
     gRows.push_back({key, variant, classes, analysis, std::move(fn)});
+}
+// a row that is a short history: legal calls that put an entity outside its model / empty a service, then the call under test
+void story(const std::string &key, int classes, std::function<R(Fx &, int)> fn, const std::string &variant, bool analysis = false)
+{
+    gRows.push_back({key, variant, classes, analysis, std::move(fn), true});
 }
 
 const size_t BIG = static_cast<size_t>(-1);
@@ -570,6 +600,234 @@ void buildTable()
     row("Generator::equationCode(AnalyserEquationAst)", NUL, [](Fx &f, int) { return expectEmpty(Generator::equationCode(nullptr)); });
     row("Generator::equationCode(AnalyserEquationAst,GeneratorProfile)", NUL, [](Fx &f, int) { return expectEmpty(Generator::equationCode(nullptr, GeneratorProfile::create())); }, "ast");
     row("Generator::equationCode(AnalyserEquationAst,GeneratorProfile)", NUL, [](Fx &f, int) { return (void)Generator::equationCode(f.amodel->equation(0)->ast(), nullptr), noCrash(); }, "profile", true);
+
+    // ================================================================== short histories (appended: keep the order above)
+    auto storyModel = []() { return Parser::create()->parseModel(kStoryModel); };
+    // ---- an equivalence that leaves the model (remove / take / never added / other model), then clone, flatten, print, validate, analyse
+    for (int how = 0; how < 4; ++how) {
+        static const char *hows[] = {"partner-removed", "partner-component-taken", "partner-never-added", "partner-in-other-model"};
+        auto prepare = [how, storyModel](Fx &f, VariablePtr &keep, ComponentPtr &keepC) {
+            auto m = storyModel();
+            auto p = m->component("main")->variable("p");
+            switch (how) {
+            case 0:
+                keep = m->component("side")->variable("q");
+                m->component("side")->removeVariable(keep);
+                break;
+            case 1:
+                keepC = m->takeComponent("side");
+                break;
+            case 2:
+                keep = Variable::create("never_added");
+                Variable::removeEquivalence(p, m->component("side")->variable("q"));
+                Variable::addEquivalence(p, keep);
+                break;
+            default:
+                Variable::removeEquivalence(p, m->component("side")->variable("q"));
+                Variable::addEquivalence(p, f.z); // f.z lives in f.model
+                break;
+            }
+            return m;
+        };
+        std::string v = std::string("equivalence-leaves-model:") + hows[how];
+        story("Model::clone()", ORPHAN, [prepare](Fx &f, int) {
+            VariablePtr keep;
+            ComponentPtr keepC;
+            auto m = prepare(f, keep, keepC);
+            auto c = m->clone();
+            // the clone may only contain equivalences between its own variables that the original has as well
+            auto cp = c->component("main")->variable("p");
+            size_t internal = 0;
+            for (size_t i = 0; i < cp->equivalentVariableCount(); ++i) {
+                auto e = cp->equivalentVariable(i);
+                auto ec = std::dynamic_pointer_cast<Component>(e->parent());
+                if (ec != nullptr && ec->parent() == c) {
+                    ++internal;
+                }
+            }
+            return R {internal == 0, internal == 0 ? "" : "the clone has an equivalence between two of its own variables that the original does not have"};
+        }, v);
+        story("Importer::flattenModel(Model)", ORPHAN, [prepare](Fx &f, int) {
+            VariablePtr keep;
+            ComponentPtr keepC;
+            auto m = prepare(f, keep, keepC);
+            auto imp = Importer::create();
+            return (void)imp->flattenModel(m), noCrash();
+        }, v);
+        story("Printer::printModel(Model)", ORPHAN, [prepare](Fx &f, int) {
+            VariablePtr keep;
+            ComponentPtr keepC;
+            auto m = prepare(f, keep, keepC);
+            (void)Printer::create()->printModel(m);
+            (void)Printer::create()->printModel(m, true);
+            return noCrash();
+        }, v);
+        story("Validator::validateModel(Model)", ORPHAN, [prepare](Fx &f, int) {
+            VariablePtr keep;
+            ComponentPtr keepC;
+            auto m = prepare(f, keep, keepC);
+            auto val = Validator::create();
+            val->validateModel(m);
+            return noCrash();
+        }, v);
+        story("Analyser::analyseModel(Model)", ORPHAN, [prepare](Fx &f, int) {
+            VariablePtr keep;
+            ComponentPtr keepC;
+            auto m = prepare(f, keep, keepC);
+            auto an = Analyser::create();
+            an->analyseModel(m);
+            auto ann = Annotator::create();
+            ann->setModel(m);
+            (void)ann->assignAllIds();
+            return noCrash();
+        }, v);
+    }
+    // ---- a dependency of an external variable leaves the model, then analyse
+    for (int how = 0; how < 3; ++how) {
+        static const char *hows[] = {"dependency-removed", "dependency-component-destroyed", "dependency-moved-to-other-model"};
+        story("Analyser::analyseModel(Model)", ORPHAN, [how, storyModel](Fx &f, int) {
+            auto m = storyModel();
+            auto an = Analyser::create();
+            VariablePtr dep;
+            AnalyserExternalVariablePtr ev = AnalyserExternalVariable::create(m->component("main")->variable("ext"));
+            if (how == 0) {
+                dep = m->component("main")->variable("spare");
+            } else {
+                dep = m->component("side")->variable("e1");
+            }
+            if (!ev->addDependency(dep)) {
+                return R {false, "could not set the history up: addDependency refused a variable of the same model"};
+            }
+            an->addExternalVariable(ev);
+            if (how == 0) {
+                m->component("main")->removeVariable(dep);
+            } else if (how == 1) {
+                Variable::removeEquivalence(m->component("main")->variable("p"), m->component("side")->variable("q"));
+                m->removeComponent("side"); // destroyed: only the dependency survives, held by the external variable
+            } else {
+                Variable::removeEquivalence(m->component("main")->variable("p"), m->component("side")->variable("q"));
+                f.other->addComponent(m->component("side"));
+            }
+            an->analyseModel(m);
+            for (size_t i = 0; i < an->issueCount(); ++i) {
+                (void)an->issue(i)->description();
+            }
+            // the variable that left must not have become part of the analysed model
+            auto am = an->model();
+            for (size_t i = 0; i < am->variableCount(); ++i) {
+                if (am->variable(i)->variable() == dep) {
+                    return R {false, "a variable that is not in the model became a variable of the analysed model"};
+                }
+            }
+            return noCrash();
+        }, hows[how]);
+    }
+    // ---- "no model" is not "the same model"
+    row("AnalyserExternalVariable::addDependency(Variable)", NEVER, [](Fx &f, int) {
+        auto a = Variable::create("a_never_added");
+        auto b = Variable::create("b_never_added");
+        auto ev1 = AnalyserExternalVariable::create(a);
+        auto ev2 = AnalyserExternalVariable::create(f.looseComp->variable(0));
+        auto sibling = Variable::create("sibling");
+        bool r1 = ev1->addDependency(b);
+        bool r2 = ev2->addDependency(sibling);
+        return both(expectFalse(r1), expectFalse(r2));
+    }, "external-variable-and-dependency-in-no-model");
+    auto looseAnalyser = [](Fx &f) {
+        auto a = Analyser::create();
+        a->addExternalVariable(AnalyserExternalVariable::create(f.looseComp->variable(0))); // loose_component / lv_inside, in no model
+        return a;
+    };
+    row("Analyser::containsExternalVariable(Model,str,str)", NUL, [looseAnalyser](Fx &f, int) { return expectFalse(looseAnalyser(f)->containsExternalVariable(nullptr, "loose_component", "lv_inside")); }, "null-model,registered-variable-in-no-model");
+    row("Analyser::externalVariable(Model,str,str)", NUL, [looseAnalyser](Fx &f, int) { return expectNull(looseAnalyser(f)->externalVariable(nullptr, "loose_component", "lv_inside").get()); }, "null-model,registered-variable-in-no-model");
+    row("Analyser::removeExternalVariable(Model,str,str)", NUL, [looseAnalyser](Fx &f, int) {
+        auto a = looseAnalyser(f);
+        bool r = a->removeExternalVariable(nullptr, "loose_component", "lv_inside");
+        return both(expectFalse(r), R {a->externalVariableCount() == 1, "the external variable was removed"});
+    }, "null-model,registered-variable-in-no-model");
+    auto looseDependency = [storyModel](ComponentPtr &side) {
+        auto m = storyModel();
+        side = m->component("side");
+        auto ev = AnalyserExternalVariable::create(side->variable("e1"));
+        ev->addDependency(side->variable("e2"));
+        Variable::removeEquivalence(m->component("main")->variable("p"), side->variable("q"));
+        m->removeComponent(side); // the component (held by the caller) and both variables are in no model now
+        return ev;
+    };
+    story("AnalyserExternalVariable::containsDependency(Model,str,str)", NUL, [looseDependency](Fx &f, int) {
+        ComponentPtr side;
+        return expectFalse(looseDependency(side)->containsDependency(nullptr, "side", "e2"));
+    }, "null-model,dependency-in-no-model");
+    story("AnalyserExternalVariable::dependency(Model,str,str)", NUL, [looseDependency](Fx &f, int) {
+        ComponentPtr side;
+        return expectNull(looseDependency(side)->dependency(nullptr, "side", "e2").get());
+    }, "null-model,dependency-in-no-model");
+    story("AnalyserExternalVariable::removeDependency(Model,str,str)", NUL, [looseDependency](Fx &f, int) {
+        ComponentPtr side;
+        auto ev = looseDependency(side);
+        bool r = ev->removeDependency(nullptr, "side", "e2");
+        return both(expectFalse(r), R {ev->dependencyCount() == 1, "the dependency was removed"});
+    }, "null-model,dependency-in-no-model");
+    // ---- an emptied library entry, then resolve
+    story("Importer::resolveImports(Model,str)", NUL, [](Fx &f, int) {
+        f.importer->replaceModel(nullptr, "lib.cellml"); // accepted (pinned by ModelFlattening.resolveFlattenMissingModel)
+        auto m = Parser::create()->parseModel(kImportingModel);
+        bool r = f.importer->resolveImports(m, "/nonexistent-base-path/");
+        return either(expectFalse(r), expectIssue(f.importer));
+    }, "library-entry-replaced-by-null");
+    // ---- the analyser model's equivalence cache and variables that come and go
+    row("AnalyserModel::areEquivalentVariables(Variable,Variable)", ORPHAN, [](Fx &f, int) {
+        std::vector<std::pair<uintptr_t, uintptr_t>> old;
+        {
+            std::vector<VariablePtr> keep;
+            for (int i = 0; i < 128; ++i) {
+                auto a = Variable::create("short_lived_a");
+                auto b = Variable::create("short_lived_b");
+                Variable::addEquivalence(a, b);
+                if (!f.amodel->areEquivalentVariables(a, b)) {
+                    return R {false, "two equivalent variables are reported as not equivalent"};
+                }
+                old.emplace_back(reinterpret_cast<uintptr_t>(a.get()), reinterpret_cast<uintptr_t>(b.get()));
+                keep.push_back(a);
+                keep.push_back(b);
+            }
+        } // all destroyed
+        // push the freed blocks through the sanitizer's quarantine so that their addresses are handed out again
+        for (int i = 0; i < 1600; ++i) {
+            std::vector<char> *block = new std::vector<char>(64 * 1024, static_cast<char>(i));
+            delete block;
+        }
+        std::map<uintptr_t, VariablePtr> fresh;
+        for (int i = 0; i < 6000; ++i) {
+            auto v = Variable::create("unrelated");
+            fresh[reinterpret_cast<uintptr_t>(v.get())] = v;
+        }
+        size_t reused = 0;
+        for (const auto &o : old) {
+            auto c = fresh.find(o.first);
+            auto d = fresh.find(o.second);
+            if (c != fresh.end() && d != fresh.end()) {
+                ++reused;
+                if (f.amodel->areEquivalentVariables(c->second, d->second)) {
+                    return R {false, "two unrelated variables that were never made equivalent are reported as equivalent (answer cached for destroyed variables at the same addresses)"};
+                }
+            }
+        }
+        std::string note = "VP-ARGS-NOTE address pairs reused: " + std::to_string(reused) + "\n";
+        ssize_t w = write(2, note.data(), note.size());
+        (void)w;
+        return noCrash();
+    }, "answers-for-destroyed-variables", true);
+    // ---- identifiers of equivalences after removeAllEquivalences()
+    story("Variable::removeAllEquivalences()", ORPHAN, [storyModel](Fx &f, int) {
+        auto m = storyModel();
+        auto p = m->component("main")->variable("p");
+        auto q = m->component("side")->variable("q");
+        p->removeAllEquivalences();
+        Variable::addEquivalence(p, q); // a new equivalence, without identifiers
+        return both(both(expectEmpty(Variable::equivalenceMappingId(p, q)), expectEmpty(Variable::equivalenceMappingId(q, p))),
+                    both(expectEmpty(Variable::equivalenceConnectionId(p, q)), expectEmpty(Variable::equivalenceConnectionId(q, p))));
+    }, "then-equivalence-added-again");
 }
 
 struct CaseRef
@@ -618,7 +876,7 @@ void child(void *arg)
     Job *j = static_cast<Job *>(arg);
     R r = j->row->fn(*j->fx, j->cls);
     std::string after = j->fx->snapshot();
-    if (after != j->before) {
+    if (!j->row->mayChange && after != j->before) {
         std::string d = "VP-ARGS changed|" + firstDiff(j->before, after) + "\n";
         ssize_t w = write(2, d.data(), d.size());
         (void)w;
@@ -662,7 +920,14 @@ std::string innermostFrame(const std::string &diag)
 
 void run(Src &src, Case &c)
 {
-    const CaseRef &cr = gCases[src.below(gCases.size())];
+    // one choice with a fixed radix, so that saved tapes keep their meaning when rows are appended to the table
+    const size_t slot = src.below(1024);
+    if (slot >= gCases.size()) {
+        c.text = "unused table slot";
+        c.count("unused_slots");
+        return;
+    }
+    const CaseRef &cr = gCases[slot];
     const Row &rw = gRows[cr.row];
     std::string cls = className(cr.cls) + (rw.variant.empty() ? std::string() : "@" + rw.variant);
     std::string where = rw.key + "|" + cls;
